@@ -165,6 +165,22 @@ def run(m: Model, r: Report, tier: str) -> None:
             "check_and_set_session can report the expected session without asking the ECU (read_session): a silent fall-back of the ECU to the default "
             "session is then never noticed and the remaining probes are reported under the wrong session: " + " -> ".join(repr(gc.nodes[p_]) for p_ in path[-4:]), loc=cs.loc)
 
+    # a read that times out is taken as "cannot check" (success); each read therefore carries its own retry budget (the function's retries
+    # parameter), independent of the scanner's max_retry (the service scanner probes with max_retry = 0)
+    rpar = cs.params()[2] if len(cs.params()) > 2 else None
+    rs_calls = [n for n in ast.walk(cs.node) if isinstance(n, ast.Call) and ast.unparse(n.func) == "self.read_session"]
+    local_cfg = {n.targets[0].id: n.value for n in ast.walk(cs.node) if isinstance(n, ast.Assign) and isinstance(n.targets[0], ast.Name)}
+    if rpar is None or len(rs_calls) < 2:
+        raise AnalysisError(f"{cs.qualname}: retries parameter / read_session calls not found")
+    for c_ in rs_calls:
+        cfgv = next((k.value for k in c_.keywords if k.arg == "config"), c_.args[0] if c_.args else None)
+        if isinstance(cfgv, ast.Name) and cfgv.id in local_cfg:
+            cfgv = local_cfg[cfgv.id]
+        mr = next((k.value for k in cfgv.keywords if k.arg == "max_retry"), None) if isinstance(cfgv, ast.Call) and ast.unparse(cfgv.func).endswith("UDSRequestConfig") else None
+        r.check(mr is not None and any(isinstance(x, ast.Name) and x.id == rpar for x in ast.walk(mr)), "R5", f"{cs.qualname}#read-retries@{c_.lineno - cs.node.lineno}",
+                f"read_session is called without max_retry={rpar}: with the scanner's own setting (max_retry = 0 in the service scan) one lost reply is taken as "
+                "'cannot check the session' and the following probes are attributed to a session the ECU has left", loc=cs.loc)
+
     sets_ = [n.id for n in gc.nodes.values() if n.kind == "stmt" and n.ast is not None and "self.set_session(" in ast.unparse(n.ast)]
     for sn in sets_:
         oks, pths = gc.must_pass(sn, reads_, trues_)
